@@ -5,13 +5,20 @@ package main
 // produce their round-k messages; instance 1 talks to honest group G1, instance 2 to G2; both receive all honest messages.
 // Oracle: no two honest parties from different groups both complete; completers hold byte-identical views of every
 // non-final broadcast round. Also checks the mechanism itself: equal view digests <=> equal views (across all handlers).
+// A second mode (c06_modes.go, "reencode") covers the rounds in which two honest instances cannot differ.
+// Every case is executed by c06Exec (no access to the shared result) and reported by c06Report, so that the slow CMP
+// cases can run on several goroutines: each has its own deterministic reader (muxReader), its own copy of the key material
+// restored from bytes and sessions without a worker pool.
 
 import (
 	"bytes"
 	"fmt"
 	"math/rand"
+	"os"
 	"sort"
 	"strings"
+	"sync"
+	"time"
 
 	"github.com/taurusgroup/multi-party-sig/pkg/party"
 	"github.com/taurusgroup/multi-party-sig/protocols/frost"
@@ -29,11 +36,24 @@ type c06Replay struct {
 	Policy   string   `json:"policy"`
 	Finished []string `json:"finished"`
 	What     string   `json:"what"`
+	// Mode: "fork" (two honest instances of the equivocator diverging at the round, the default) or "reencode"
+	// (one instance; group 2 gets the same content in another, equally decodable CBOR encoding: see c06_modes.go)
+	Mode     string `json:"mode,omitempty"`
+	Variant  string `json:"variant,omitempty"`
+	Adaptive bool   `json:"adaptive,omitempty"`
+}
+
+// c06Det: the deterministic reader of one run. mux = the run executes in parallel with others (pump.go muxReader); otherwise
+// the reader is installed as the process's crypto/rand.Reader.
+func c06Det(seed int64, mux bool) *detReader {
+	if mux {
+		return newMuxDetReader(seed)
+	}
+	return installDetReader(seed, 0)
 }
 
 // buildTwoFaced creates the sim with two instances of E.
-func buildTwoFaced(sp SessionSpec, seed int64, E party.ID, g1 map[party.ID]bool, k int) (*Sim, *detReader) {
-	det := installDetReader(seed, 0)
+func buildTwoFaced(sp SessionSpec, seed int64, E party.ID, g1 map[party.ID]bool, k int, det *detReader) (*Sim, *detReader) {
 	s := NewSim(sp.IDs, rand.New(rand.NewSource(seed)), det)
 	e2 := party.ID(string(E) + "#2")
 	det.alias[string(e2)] = string(E)
@@ -93,15 +113,92 @@ func viewsOf(n *Node) map[int]map[party.ID][]byte {
 	return out
 }
 
-func (c *ctx) c06Run(sp SessionSpec, seed int64, E party.ID, g1 map[party.ID]bool, k int, final int, bcast map[int]bool, polName string) {
-	s, det := buildTwoFaced(sp, seed, E, g1, k)
-	defer restoreRandReader()
-	if k == 2 {
+// c06Mode selects how the equivocator produces two versions of its round-k broadcast.
+type c06Mode struct {
+	Name     string // "fork" | "reencode"
+	Variant  string // reencode: "long-header" | "extra-field"
+	Adaptive bool   // reencode: round-(k+1) messages to group 2 carry the recipient's own view digest
+}
+
+func (m c06Mode) String() string {
+	if m.Name != "reencode" {
+		return "fork"
+	}
+	s := "reencode:" + m.Variant
+	if m.Adaptive {
+		s += ":adaptive"
+	}
+	return s
+}
+
+// c06Job is one case; c06Out what its execution found.
+type c06Job struct {
+	sp    SessionSpec
+	seed  int64
+	E     party.ID
+	g1    map[party.ID]bool
+	k     int
+	last  int // number of the last message round of an honest run
+	bcast map[int]bool
+	pol   string
+	mode  c06Mode
+	mux   bool
+}
+
+type c06Viol struct {
+	key, what string
+	rp        c06Replay
+}
+
+type c06Out struct {
+	class, fp   string
+	equivocated bool
+	rp          c06Replay
+	viols       []c06Viol
+	corr        []bool
+	notes       []string
+	secs        float64
+}
+
+func (c *ctx) c06Report(o *c06Out) {
+	c.res.Case(o.class, o.fp, o.equivocated)
+	c.res.Sample(3, o.rp)
+	for _, n := range o.notes {
+		c.res.Note("%s", n)
+	}
+	for _, ok := range o.corr {
+		c.res.Corr(ok)
+	}
+	for _, v := range o.viols {
+		c.res.Violate("property", v.key, v.what, v.rp)
+	}
+}
+
+// c06Exec runs one case.
+func c06Exec(j c06Job) *c06Out {
+	sp, seed, E, g1, k, last, mode := j.sp, j.seed, j.E, j.g1, j.k, j.last, j.mode
+	o := &c06Out{}
+	t0 := time.Now()
+	defer func() { o.secs = time.Since(t0).Seconds() }()
+	det := c06Det(seed, j.mux)
+	if j.mux {
+		defer muxEnter(det)()
+	} else {
+		defer restoreRandReader()
+	}
+	var s *Sim
+	var re *reencState
+	if mode.Name == "reencode" {
+		s, re = buildReencoded(sp, seed, E, g1, k, mode.Variant, det)
+	} else {
+		s, _ = buildTwoFaced(sp, seed, E, g1, k, det)
+	}
+	if mode.Name != "reencode" && k == 2 {
 		// first message round: instance 2 must differ from the start -> rebuild it with a forked stream
 		forkIfDue(s, det, E, 2)
 	}
 	var pol Policy
-	switch polName {
+	switch j.pol {
 	case "lifo":
 		pol = policyLIFO()
 	case "random":
@@ -110,13 +207,21 @@ func (c *ctx) c06Run(sp SessionSpec, seed int64, E party.ID, g1 map[party.ID]boo
 		pol = func(*Sim) (int, bool) { return 0, false }
 	}
 	for steps := 0; len(s.Flight) > 0 && steps < 20000; steps++ {
-		forkIfDue(s, det, E, k)
+		if mode.Name != "reencode" {
+			forkIfDue(s, det, E, k)
+		}
 		i, keep := pol(s)
+		if mode.Adaptive {
+			i = adaptivePick(s, i, E, g1, k)
+		}
 		var e *Env
 		if keep {
 			e = s.Flight[i]
 		} else {
 			e = s.take(i)
+		}
+		if mode.Adaptive {
+			adaptivePatch(s, e, E, g1, k)
 		}
 		s.Deliver(e)
 	}
@@ -137,51 +242,96 @@ func (c *ctx) c06Run(sp SessionSpec, seed int64, E party.ID, g1 map[party.ID]boo
 			fin = append(fin, string(id))
 		}
 	}
-	rp := c06Replay{Spec: sp.Name, Seed: seed, Cheater: string(E), Round: k, G1: G1, G2: G2, Policy: polName, Finished: fin}
+	rp := c06Replay{Spec: sp.Name, Seed: seed, Cheater: string(E), Round: k, G1: G1, G2: G2, Policy: j.pol, Finished: fin, Mode: "fork"}
 	key := fmt.Sprintf("C06/%s/round%d", sp.Name, k)
-	// did the two instances really send different round-k broadcasts?
+	class := fmt.Sprintf("%s/round%d", sp.Name, k)
+	// did the two groups really receive different, individually valid round-k broadcasts?
 	var b1, b2 []byte
-	for _, m := range s.Nodes[E].Out {
-		if m.Broadcast && int(m.RoundNumber) == k {
-			b1 = m.Data
+	equivocated := false
+	if mode.Name == "reencode" {
+		rp.Mode, rp.Variant, rp.Adaptive = "reencode", mode.Variant, mode.Adaptive
+		key += "/reencoded"
+		class += "/" + mode.String()
+		b1, b2 = re.orig, re.alt
+		// individually valid: the same content (decoded generically), and no member of group 2 found fault with E's messages
+		equivocated = b1 != nil && b2 != nil && !bytes.Equal(b1, b2) && cborSameContent(b1, b2)
+		for _, id := range G2 {
+			gst := s.Nodes[party.ID(id)].MH.VerifState()
+			for _, cu := range gst.Culprits {
+				// (an abort relayed by E, or a view mismatch, is not a verdict on the payload)
+				if cu == E && errKindOf(gst.ErrText) == 2 {
+					equivocated = false
+					o.notes = append(o.notes, fmt.Sprintf("C06 %s round %d %s: %s rejected the re-encoded broadcast of %s (%s)", sp.Name, k, mode, id, E, gst.ErrText))
+				}
+			}
+		}
+	} else {
+		for _, m := range s.Nodes[E].Out {
+			if m.Broadcast && int(m.RoundNumber) == k {
+				b1 = m.Data
+			}
+		}
+		e2 := s.Nodes[party.ID(string(E)+"#2")]
+		for _, m := range e2.Out {
+			if m.Broadcast && int(m.RoundNumber) == k {
+				b2 = m.Data
+			}
+		}
+		equivocated = b1 != nil && b2 != nil && !bytes.Equal(b1, b2)
+		// for k > 2 the instances must have been in lockstep before: identical messages in every earlier round
+		if k > 2 {
+			sig := func(n *Node) string {
+				var sb strings.Builder
+				for _, m := range n.Out {
+					if int(m.RoundNumber) < k && m.RoundNumber > 0 {
+						fmt.Fprintf(&sb, "%d/%s/%v/%x;", m.RoundNumber, m.To, m.Broadcast, m.Hash())
+					}
+				}
+				return sb.String()
+			}
+			if sig(s.Nodes[E]) != sig(e2) {
+				class += "/lockstep-lost"
+				equivocated = false
+			}
 		}
 	}
-	for _, m := range s.Nodes[party.ID(string(E)+"#2")].Out {
-		if m.Broadcast && int(m.RoundNumber) == k {
-			b2 = m.Data
-		}
-	}
-	equivocated := b1 != nil && b2 != nil && !bytes.Equal(b1, b2)
-	c.res.Case(fmt.Sprintf("%s/round%d/equivocated=%v", sp.Name, k, equivocated), fmt.Sprintf("%s/%s/%d/%v/%s/%d", sp.Name, E, k, G1, polName, seed), equivocated)
-	c.res.Sample(3, rp)
+	o.class = fmt.Sprintf("%s/equivocated=%v", class, equivocated)
+	o.fp = fmt.Sprintf("%s/%s/%d/%v/%s/%d/%s", sp.Name, E, k, G1, j.pol, seed, mode)
+	o.equivocated, o.rp = equivocated, rp
 	if !equivocated {
-		return
+		return o
+	}
+	violate := func(k, what string) {
+		r := rp
+		r.What = what
+		o.viols = append(o.viols, c06Viol{k, what, r})
 	}
 	// oracle 1: no cross-group pair of completers
 	for _, a := range G1 {
 		for _, b := range G2 {
 			if finished[party.ID(a)] && finished[party.ID(b)] {
-				rp.What = fmt.Sprintf("honest %s and %s received different round-%d broadcasts from %s and both completed", a, b, k, E)
-				c.res.Violate("property", key+"/split", rp.What, rp)
+				violate(key+"/split", fmt.Sprintf("honest %s and %s received different round-%d broadcasts from %s and both completed", a, b, k, E))
 			}
 		}
 	}
 	// oracle 2: completers hold identical views of every non-final broadcast round
 	var views []map[int]map[party.ID][]byte
-	var who []string
-	for id := range finished {
-		views = append(views, viewsOf(s.Nodes[id]))
-		who = append(who, string(id))
+	for _, id := range fin {
+		views = append(views, viewsOf(s.Nodes[party.ID(id)]))
 	}
 	for i := 1; i < len(views); i++ {
-		for r := 2; r < final; r++ {
-			if !bcast[r] {
+		for r := 2; r < last; r++ {
+			if !j.bcast[r] {
 				continue
 			}
-			for id, h := range views[0][r] {
-				if !bytes.Equal(views[i][r][id], h) {
-					rp.What = fmt.Sprintf("completers %s and %s hold different round-%d broadcasts of %s", who[0], who[i], r, id)
-					c.res.Violate("property", key+"/views-differ", rp.What, rp)
+			var froms []string
+			for id := range views[0][r] {
+				froms = append(froms, string(id))
+			}
+			sort.Strings(froms)
+			for _, id := range froms {
+				if !bytes.Equal(views[i][r][party.ID(id)], views[0][r][party.ID(id)]) {
+					violate(key+"/views-differ", fmt.Sprintf("completers %s and %s hold different round-%d broadcasts of %s", fin[0], fin[i], r, id))
 				}
 			}
 		}
@@ -192,7 +342,13 @@ func (c *ctx) c06Run(sp SessionSpec, seed int64, E party.ID, g1 map[party.ID]boo
 		who          string
 	}
 	byRound := map[int][]vd{}
-	for lbl, n := range s.Nodes {
+	var labels []string
+	for lbl := range s.Nodes {
+		labels = append(labels, string(lbl))
+	}
+	sort.Strings(labels)
+	for _, lbl := range labels {
+		n := s.Nodes[party.ID(lbl)]
 		if n.MH == nil {
 			continue
 		}
@@ -208,81 +364,104 @@ func (c *ctx) c06Run(sp SessionSpec, seed int64, E party.ID, g1 map[party.ID]boo
 			for _, id := range ks {
 				fmt.Fprintf(&sb, "%s:%x;", id, q[party.ID(id)].Hash())
 			}
-			byRound[int(r)] = append(byRound[int(r)], vd{sb.String(), string(d), string(lbl)})
+			byRound[int(r)] = append(byRound[int(r)], vd{sb.String(), string(d), lbl})
 		}
 	}
-	for r, l := range byRound {
+	var rounds []int
+	for r := range byRound {
+		rounds = append(rounds, r)
+	}
+	sort.Ints(rounds)
+	for _, r := range rounds {
+		l := byRound[r]
 		for i := range l {
 			for j := i + 1; j < len(l); j++ {
-				c.res.Corr((l[i].view == l[j].view) == (l[i].digest == l[j].digest))
-				if (l[i].view == l[j].view) != (l[i].digest == l[j].digest) {
-					rp.What = fmt.Sprintf("round %d: %s and %s have views equal=%v but view digests equal=%v", r, l[i].who, l[j].who, l[i].view == l[j].view, l[i].digest == l[j].digest)
-					c.res.Violate("property", key+"/view-digest-not-injective", rp.What, rp)
+				same := (l[i].view == l[j].view) == (l[i].digest == l[j].digest)
+				o.corr = append(o.corr, same)
+				if !same {
+					violate(key+"/view-digest-not-injective", fmt.Sprintf("round %d: %s and %s have views equal=%v but view digests equal=%v", r, l[i].who, l[j].who, l[i].view == l[j].view, l[i].digest == l[j].digest))
 				}
 			}
 		}
 	}
+	return o
+}
+
+// c06Last: the last message round of an honest run (for the offline presign this is 7 although round numbers go up to 8)
+func c06Last(sh shapeInfo) int {
+	last := 0
+	for r := range sh.Bcast {
+		if r > last {
+			last = r
+		}
+	}
+	return last
+}
+
+// c06Parallel executes the jobs on up to `workers` goroutines and returns the outcomes in job order.
+func c06Parallel(jobs []c06Job, workers int) []*c06Out {
+	outs := make([]*c06Out, len(jobs))
+	var wg sync.WaitGroup
+	sem := make(chan struct{}, workers)
+	for i := range jobs {
+		wg.Add(1)
+		sem <- struct{}{}
+		go func(i int) {
+			defer wg.Done()
+			defer func() { <-sem }()
+			outs[i] = c06Exec(jobs[i])
+		}(i)
+	}
+	wg.Wait()
+	return outs
 }
 
 func runC06(c *ctx) {
-	c.res.Rule = "two-faced party (two honest instances diverging at round k) for every broadcast round k followed by a further round, every equivocator, every 2-partition of the honest parties (n=3,4), " +
-		"FIFO/LIFO/random schedules; FROST keygen, FROST sign (CMP sign in the thorough tier); non-trivial = the two instances really sent different round-k broadcasts"
-	type proto struct {
-		sp    SessionSpec
-		final int
-	}
-	var protos []SessionSpec
-	for _, n := range []int{3, 4} {
-		ids := idsOf("alice", "bob", "carl", "dave")[:n]
-		protos = append(protos, specFrostKeygen(ids, 1, false, []byte("c06")))
-	}
-	// FROST sign needs key material
-	{
-		ids := idsOf("alice", "bob", "carl")
-		det := installDetReader(77, 0)
-		kg := specFrostKeygen(ids, 1, false, []byte("kg")).build(rand.New(rand.NewSource(1)), det)
-		kg.RunFIFO(10000)
-		restoreRandReader()
-		cfgs := map[party.ID]*frost.Config{}
-		for id, n := range kg.Nodes {
-			if r, _ := resultOf(n); r != nil {
-				cfgs[id] = r.(*frost.Config)
-			}
-		}
-		if len(cfgs) == 3 {
-			protos = append(protos, specFrostSign(cfgs, ids, []byte("msg"), []byte("c06s")))
+	c.res.Rule = "two modes for every broadcast round k that is followed by a further round, every protocol family on the multi-party handler: " +
+		"(fork) two-faced party = two honest instances diverging at round k; (reencode) one instance whose round-k broadcast reaches group 2 in another, equally decodable CBOR encoding " +
+		"(plain, and adaptive: the equivocator echoes the recipient's own view digest); every equivocator and every 2-partition of the honest parties (n=3,4) for FROST keygen/sign with FIFO/LIFO/random schedules, " +
+		"one equivocator/partition per round for CMP keygen, sign, presign (refresh, all positions and fork mode on every round in the thorough tier); non-trivial = the two groups really received different, individually valid round-k broadcasts"
+	var rpl *c06Replay
+	if c.replay != "" {
+		rpl = &c06Replay{}
+		if err := readJSON(c.replay, rpl); err != nil || rpl.Spec == "" {
+			c.res.Note("replay file not understood (%v): running everything", err)
+			rpl = nil
+		} else {
+			c.res.Note("replay: only %s round %d equivocator %s mode %s", rpl.Spec, rpl.Round, rpl.Cheater, rpl.Mode)
 		}
 	}
-	{
-		usePrimeCache()
-		ids := idsOf("alice", "bob", "carl")
-		kg := specCMPKeygen(ids, 1, []byte("kgc")).build(rand.New(rand.NewSource(1)), nil)
-		kg.RunFIFO(100000)
-		if cfgs, err := cmpConfigsOf(kg); err == nil {
-			protos = append(protos, specCMPSign(cfgs, ids, bytes.Repeat([]byte{3}, 32), []byte("c06c")))
-		}
-	}
+	timing := os.Getenv("C06_TIMING") != ""
 	pols := []string{"fifo", "lifo", "random"}
-	for _, sp := range protos {
-		// learn shape from an honest run
-		det := installDetReader(5, 0)
-		ref := sp.build(rand.New(rand.NewSource(5)), det)
-		ref.RunFIFO(100000)
-		restoreRandReader()
-		sh := ref.learnShape()
-		for k := 2; k < sh.Final; k++ {
-			if !sh.Bcast[k] {
-				continue
+	reencModes := []c06Mode{{"reencode", "long-header", false}, {"reencode", "extra-field", true}, {"reencode", "long-header", true}, {"reencode", "extra-field", false}}
+	// jobsFor lists the cases of one session type. mk returns the session (for CMP: on a private copy of the key material).
+	jobsFor := func(mk func() SessionSpec, name string, ids []party.ID, sh shapeInfo, isCMP bool) (jobs []c06Job) {
+		last := c06Last(sh)
+		var ks []int
+		for k := 2; k < last; k++ {
+			if sh.Bcast[k] {
+				ks = append(ks, k)
 			}
-			if !c.thorough() && strings.HasPrefix(sp.Name, "cmp") && k > 2 {
-				continue // later CMP sign broadcasts are functions of round-1 randomness: the two instances cannot differ there (thorough tier records that)
+		}
+		c.res.Note("%s: broadcast rounds followed by a further round: %v (last message round %d)", name, ks, last)
+		if rpl != nil {
+			g1 := map[party.ID]bool{}
+			for _, id := range rpl.G1 {
+				g1[party.ID(id)] = true
 			}
-			for ei, E := range party.NewIDSlice(sp.IDs) {
-				if !c.thorough() && strings.HasPrefix(sp.Name, "cmp") && ei != (k % len(sp.IDs)) {
+			mode := c06Mode{Name: "fork"}
+			if rpl.Mode == "reencode" {
+				mode = c06Mode{"reencode", rpl.Variant, rpl.Adaptive}
+			}
+			return []c06Job{{mk(), rpl.Seed, party.ID(rpl.Cheater), g1, rpl.Round, last, sh.Bcast, rpl.Policy, mode, isCMP}}
+		}
+		for _, k := range ks {
+			for ei, E := range party.NewIDSlice(ids) {
+				if !c.thorough() && isCMP && ei != (k%len(ids)) {
 					continue // quick tier: one equivocator position per round for the (slow) CMP sessions
 				}
 				var honest []party.ID
-				for _, id := range party.NewIDSlice(sp.IDs) {
+				for _, id := range party.NewIDSlice(ids) {
 					if id != E {
 						honest = append(honest, id)
 					}
@@ -299,13 +478,158 @@ func runC06(c *ctx) {
 						}
 					}
 					for pi, pn := range pols {
-						if !c.thorough() && pi > 0 && ((mask+k)%2 == 0 || strings.HasPrefix(sp.Name, "cmp")) {
+						if !c.thorough() && pi > 0 && ((mask+k)%2 == 0 || isCMP) {
 							continue
 						}
-						c.c06Run(sp, c.res.Seed*977+int64(mask*31+k*7+pi), E, g1, k, sh.Final, sh.Bcast, pn)
+						if c.thorough() && isCMP && pi == 1 {
+							continue // thorough tier, CMP: FIFO and random schedules
+						}
+						seed := c.res.Seed*977 + int64(mask*31+k*7+pi)
+						// fork mode: in the quick tier only where the two instances can differ (CMP: see c06ForkRounds)
+						forked := c.thorough() || !isCMP || c06ForkRounds(name)[k]
+						if forked {
+							jobs = append(jobs, c06Job{mk(), seed, E, g1, k, last, sh.Bcast, pn, c06Mode{Name: "fork"}, isCMP})
+						}
+						// reencode mode: every round (quick tier, CMP: the rounds that fork mode does not cover); the variant rotates with the case
+						nm := 1
+						if c.thorough() {
+							nm = len(reencModes)
+						} else if isCMP && forked {
+							nm = 0
+						}
+						for v := 0; v < nm; v++ {
+							jobs = append(jobs, c06Job{mk(), seed, E, g1, k, last, sh.Bcast, pn, reencModes[(ei+mask+k+pi+v)%len(reencModes)], isCMP})
+						}
 					}
 				}
 			}
 		}
+		return jobs
 	}
+	report := func(outs []*c06Out) {
+		for _, o := range outs {
+			if timing {
+				fmt.Fprintf(os.Stderr, "%-70s %.1fs\n", o.fp, o.secs)
+			}
+			c.c06Report(o)
+		}
+	}
+
+	// ---- FROST: sequential, the deterministic reader is the process's crypto/rand.Reader ----
+	var frostSpecs []SessionSpec
+	for _, n := range []int{3, 4} {
+		ids := idsOf("alice", "bob", "carl", "dave")[:n]
+		frostSpecs = append(frostSpecs, specFrostKeygen(ids, 1, false, []byte("c06")))
+	}
+	{
+		// FROST sign needs key material
+		ids := idsOf("alice", "bob", "carl")
+		det := installDetReader(77, 0)
+		kg := specFrostKeygen(ids, 1, false, []byte("kg")).build(rand.New(rand.NewSource(1)), det)
+		kg.RunFIFO(10000)
+		restoreRandReader()
+		cfgs := map[party.ID]*frost.Config{}
+		for id, n := range kg.Nodes {
+			if r, _ := resultOf(n); r != nil {
+				cfgs[id] = r.(*frost.Config)
+			}
+		}
+		if len(cfgs) == 3 {
+			frostSpecs = append(frostSpecs, specFrostSign(cfgs, ids, []byte("msg"), []byte("c06s")))
+		}
+	}
+	for _, sp := range frostSpecs {
+		if rpl != nil && rpl.Spec != sp.Name {
+			continue
+		}
+		sp := sp
+		det := installDetReader(5, 0)
+		ref := sp.build(rand.New(rand.NewSource(5)), det)
+		ref.RunFIFO(100000)
+		restoreRandReader()
+		for _, j := range jobsFor(func() SessionSpec { return sp }, sp.Name, sp.IDs, ref.learnShape(), false) {
+			report([]*c06Out{c06Exec(j)})
+		}
+	}
+
+	// ---- CMP: one key generation; the cases run in parallel ----
+	if rpl != nil && !strings.HasPrefix(rpl.Spec, "cmp") {
+		return
+	}
+	usePrimeCache()
+	ids := idsOf("alice", "bob", "carl")
+	kg := specCMPKeygen(ids, 1, []byte("kgc")).build(rand.New(rand.NewSource(1)), nil)
+	kg.RunFIFO(100000)
+	cfgs, err := cmpConfigsOf(kg)
+	if err != nil {
+		c.res.Note("CMP key generation did not complete: %v", err)
+		return
+	}
+	raw, err := c06FreezeCMP(cfgs)
+	if err != nil {
+		c.res.Note("CMP key material cannot be serialised: %v", err)
+		return
+	}
+	withRefresh := c.thorough() || (rpl != nil && strings.HasPrefix(rpl.Spec, "cmp-refresh"))
+	names := c06CMPNames(len(ids), withRefresh)
+	mk := func(i int) func() SessionSpec {
+		return func() SessionSpec { return c06CMPSpecs(c06ThawCMP(raw), ids, withRefresh)[i] }
+	}
+	// from here on every CMP session draws its Paillier primes by party (the two instances of a two-faced party need the
+	// same key) and its randomness from the reader registered for its goroutine
+	usePrimeCacheByParty(ids)
+	installMux()
+	defer restoreRandReader()
+	defer usePrimeCache()
+	workers := 12
+	// shapes: the key generation above is an honest run of cmp-keygen; sign / presign / refresh are run once each
+	shapes := make([]shapeInfo, len(names))
+	var wg sync.WaitGroup
+	for i, name := range names {
+		if rpl != nil && rpl.Spec != name {
+			continue
+		}
+		if strings.HasPrefix(name, "cmp-keygen") {
+			shapes[i] = kg.learnShape()
+			continue
+		}
+		wg.Add(1)
+		go func(i int) {
+			defer wg.Done()
+			det := newMuxDetReader(5)
+			defer muxEnter(det)()
+			ref := mk(i)().build(rand.New(rand.NewSource(5)), det)
+			ref.RunFIFO(100000)
+			shapes[i] = ref.learnShape()
+		}(i)
+	}
+	wg.Wait()
+	var jobs []c06Job
+	for i, name := range names {
+		if rpl != nil && rpl.Spec != name {
+			continue
+		}
+		jobs = append(jobs, jobsFor(mk(i), name, ids, shapes[i], true)...)
+	}
+	report(c06Parallel(jobs, workers))
+}
+
+// c06ForkRounds: the CMP rounds on which the quick tier runs fork mode: the round's broadcast contains randomness drawn when the
+// round's messages are produced, so that two instances of a party that were in lockstep until round k-1 send different,
+// individually valid round-k broadcasts. (Round 2 always; keygen/refresh 4: fresh zkmod/zkprm proofs; presign 3: fresh MtA
+// ciphertexts. Presign 4 (fresh ElGamal encryption of chi) and 6 (fresh zkelog proof) qualify too, but the two instances
+// are in byte-level lockstep before round 4 only by luck: the round-3 broadcast holds two Go maps, which CBOR writes in
+// iteration order; when the orders differ the run is a re-encoding equivocation in round 3 and is recorded as
+// `lockstep-lost`. Every other CMP broadcast is a function of values fixed by earlier rounds. The thorough tier runs fork
+// mode on every round and records `equivocated=false` / `lockstep-lost` where it cannot bite.)
+func c06ForkRounds(name string) map[int]bool {
+	switch {
+	case strings.HasPrefix(name, "cmp-keygen"), strings.HasPrefix(name, "cmp-refresh"):
+		return map[int]bool{4: true}
+	case strings.HasPrefix(name, "cmp-presign"):
+		return map[int]bool{3: true}
+	case strings.HasPrefix(name, "cmp-sign"):
+		return map[int]bool{2: true}
+	}
+	return map[int]bool{}
 }
